@@ -5,7 +5,7 @@ import time
 from harness import pool, sandbox, trace, xl
 
 
-def mention(k, style):
+def mention(k, style, salt=0):
     """how cell A<k> is mentioned: plainly, inside a lazily evaluated argument, or more than once (value-neutral)"""
     if style == 1:
         return f'IF(TRUE,A{k},0)'
@@ -13,6 +13,10 @@ def mention(k, style):
         return f'A{k}+(A{k}-$A${k})'
     if style == 3:
         return f'IF(A{k}<0,0,A{k})'
+    if style == 6:      # the reference occurs ONLY as the argument of an information function (value-neutral: the term is 0)
+        return f'IF(ISBLANK(A{k}),0,0)'
+    if style == 7:
+        return f"IF({['ISNUMBER', 'ISTEXT', 'ISERROR', 'ISNA', 'ISERR'][(k + salt) % 5]}(A{k}),0,0)"
     return f'A{k}'
 
 
@@ -32,7 +36,7 @@ def formula_for(c, refs, fail, mode, via_range, long_pad=False, style=0):
             parts.append(f'SUM(A{refs[i]}:A{refs[i + 1]})')
             i += 2
         else:
-            parts.append(mention(refs[i], style))
+            parts.append(mention(refs[i], style, c))
             i += 1
     if style == 4:
         parts.append('Z9+$Z$9')
@@ -99,6 +103,8 @@ def live_cyclic(refs, fail, entry):
 def outcome_ok(refs, fail, entry, exp, val, obs, style=0):
     if style == 5 and exp == 'value':      # the value of every cell is the error value its formula starts with
         return obs['outcome'] == 'value' and obs.get('abs') == {'t': 'err', 'v': '#DIV/0!'}
+    if style in (6, 7) and exp == 'value':      # the referenced cells are evaluated (a cycle through them is a cycle) but contribute 0
+        return obs['outcome'] == 'value' and obs.get('val') == 2 ** (entry - 1)
     if obs['outcome'] == exp and (exp != 'value' or obs.get('val') == val):
         return True
     # a failing cell AND a cycle both reachable: either report is right (which is met first depends on evaluation order)
@@ -111,9 +117,10 @@ def graph_worker(blocks):
         st = b if isinstance(b, dict) else pool.parse_block(b)
         refs, fail, entry, exp, val = st['refs'], st['fail'], st['entry'], st['outcome'], st['val']
         h = hash((str(refs), entry)) & 0xffff
-        style = (h >> 5) % 6
+        style = (h >> 5) % 8
         crowd = 320 if (h >> 8) % 16 == 0 else 0
-        obs = evaluate_graph(refs, fail, entry, mode=h % 2, via_range=(h >> 1) % 2 == 0, long_pad=(h >> 2) % 8 == 0, style=style, crowd=crowd)
+        via_range = (h >> 1) % 2 == 0 and style not in (6, 7)
+        obs = evaluate_graph(refs, fail, entry, mode=h % 2, via_range=via_range, long_pad=(h >> 2) % 8 == 0, style=style, crowd=crowd)
         out['n'] += 1
         out['outcomes'][exp] = out['outcomes'].get(exp, 0) + 1
         ok = outcome_ok(refs, fail, entry, exp, val, obs, style)
@@ -122,8 +129,8 @@ def graph_worker(blocks):
         if not ok:
             cyc = exp == 'cycle'
             out['dis'].append({'case': {'refs': refs, 'fail': fail, 'entry': entry,
-                                        'style': style, 'mode': h % 2, 'via_range': (h >> 1) % 2 == 0, 'unrelated_formula_cells': crowd,
-                                        'formulas': {f'A{c}': formula_for(c, refs[c - 1], fail[c - 1], h % 2, (h >> 1) % 2 == 0, False, style) for c in range(1, len(refs) + 1)}},
+                                        'style': style, 'mode': h % 2, 'via_range': via_range, 'unrelated_formula_cells': crowd,
+                                        'formulas': {f'A{c}': formula_for(c, refs[c - 1], fail[c - 1], h % 2, via_range, False, style) for c in range(1, len(refs) + 1)}},
                                'exp': {'outcome': exp, 'val': val}, 'obs': {k: obs[k] for k in obs if k != 'abs'},
                                'features': {'expected': exp, 'observed': obs['outcome'], 'self_loop': cyc and entry in refs[entry - 1],
                                             'ncells': len(refs)}})
@@ -249,6 +256,43 @@ def twin_sheet_worker(items):
                     break
             if bad:
                 break
+    return out
+
+
+def sparse_range_worker(items):
+    """the two-cell graphs 1 -> 2 (-> 1) of the instance with the reference from cell 1 being a LONG, SPARSE range on a sheet
+    whose name may need quoting: cell 2 stands behind `gap` empty cells of the range (a rectangular range denotes all its cells,
+    however many are empty).  items: (sheet, horizontal, gap, cyclic, expected {entry: (outcome, val)})"""
+    from harness import syntax as S
+    out = {'n': 0, 'dis': []}
+    for sheet, horiz, gap, cyclic, exp in items:
+        far = (gap + 2, 1) if horiz else (2, gap + 1)
+        end = (gap + 40, 1) if horiz else (2, gap + 40)
+        a1, a2 = f'{sheet}!A1' if not horiz else f'{sheet}!A2', f'{sheet}!{S.col_letters(far[0])}{far[1] if not horiz else 2}'
+        if horiz:
+            rng_text = f'B2:{S.col_letters(end[0])}2'
+        else:
+            rng_text = f'B1:B{end[1]}'
+        d = {a1: f'=1+SUM({rng_text})', a2: ('=2+' + a1.split('!')[1]) if cyclic else 2, 'Other!A1': "=1+SUM(" + S.sheet_prefix(sheet) + rng_text + ")"}
+        for entry, addr in ((1, a1), (2, a2), (3, 'Other!A1')):
+            def fn():
+                L = xl.lib()
+                try:
+                    a = xl.to_abs(L.Evaluator(L.ModelCompiler().read_and_parse_dict(d)).evaluate(addr))
+                    return {'outcome': 'value', 'val': a['n'] if a['t'] == 'num' and a['d'] == 1 else -1}
+                except RecursionError:
+                    return {'outcome': 'error', 'cls': 'RecursionError'}
+                except BaseException as e:      # noqa
+                    if isinstance(e, (KeyboardInterrupt, SystemExit, sandbox._Timeout, MemoryError)):
+                        raise
+                    return {'outcome': 'cycle' if 'cycle' in str(e).lower() else 'error', 'cls': type(e).__name__}
+            obs = sandbox.run_timed(fn)
+            out['n'] += 1
+            want, val = exp[min(entry, 2)] if entry < 3 else exp[1]      # (the cell on the other sheet reads the same range as cell 1)
+            if not (obs.get('outcome') == want and (want != 'value' or obs.get('val') == val)):
+                out['dis'].append({'case': {'workbook': {k: (v if len(str(v)) < 80 else str(v)[:80]) for k, v in d.items()}, 'entry': addr},
+                                   'exp': {'outcome': want, 'val': val}, 'obs': obs,
+                                   'features': {'expected': want, 'observed': obs.get('outcome'), 'sparse_range': True, 'quoted_sheet': sheet != 'S1', 'gap': gap}})
     return out
 
 
@@ -535,6 +579,25 @@ def run(run):
     run.notes['twin_sheet_evaluations'] = ntw
     if ntw < 500:
         raise xl.MachineryError(f'vacuous twin-sheet family: {ntw} evaluations')
+    # long sparse ranges on sheets whose names need quoting: the outcomes TLC computed for the two-cell graphs 1 -> 2 and 1 <-> 2
+    by = {(str(c['refs']), str(c['fail']), c['entry']): (c['outcome'], c['val']) for c in cases3}
+    sp_items = []
+    for cyclic in (False, True):
+        refs2 = [[2], [1], []] if cyclic else [[2], [], []]      # (the instance has three cells: the third stands alone)
+        try:
+            exp = {e: by[(str(refs2), str([False, False, False]), e)] for e in (1, 2)}
+        except KeyError:
+            raise xl.MachineryError('the two-cell graphs are missing from the instance')
+        for sheet in ('S1', 'My Sheet', "O'x", 'P^2'):
+            for horiz, gap in ((False, 150), (False, 230), (False, 320), (True, 120), (True, 260)):
+                sp_items.append((sheet, horiz, gap, cyclic, exp))
+    nsp = 0
+    for res in pool.pmap(sparse_range_worker, sp_items, nchunks=16):
+        nsp += res['n']
+        for d in res['dis']:
+            run.disagree('graph', d['case'], d['exp'], d['obs'], d['features'], clause='sparse-range:' + str(d['features']['expected']) + '->' + str(d['features']['observed']))
+    run.evaluations += nsp
+    run.notes['sparse_range_evaluations'] = nsp
     # row totals right of a wide table: validated by TLC (Trace_Local) - a value, never a cycle report
     from harness import evalrec
     wev = [e for part in pool.pmap(wide_row_worker, wide_row_events(), nchunks=4) for e in part]
